@@ -23,7 +23,7 @@ open SigModel.Proto
 
 structure Backend where
   id : String
-  url : String          -- as stored: normalised; static entries end in "/"
+  url : String          -- as stored: normalised; static entries end in "/", etcd entries are kept as given
   host : String         -- key of the table this entry is filed under
   allowHttp : Bool
   secret : String
@@ -61,9 +61,17 @@ def urlAllowed (b : Backend) (scheme : String) : Bool :=
   else if scheme = "http" then ruleVal Generated.Backends.schemeHttp b
   else ruleVal Generated.Backends.schemeOther b
 
+/-- `if x[len(x)-1] != '/' { x += "/" }` (for a non-empty `x`). -/
+def withSlash (s : String) : String := if s.toList.getLast? = some '/' then s else s ++ "/"
+
+/-- The url of an entry as the loop of `getBackendLocked` compares it: with a "/" appended when it is
+stored without one (entries of the etcd storage keep the url as given) — if the source does so. -/
+def entryUrl (e : Backend) : String :=
+  if Generated.Backends.lookupEntrySlashTerminated then withSlash e.url else e.url
+
 /-- One iteration of the loop of `getBackendLocked`. -/
 def entryMatches (scheme url : String) (e : Backend) : Bool :=
-  urlAllowed e scheme && (e.url == "" || hasPrefix e.url url)
+  urlAllowed e scheme && (e.url == "" || hasPrefix (entryUrl e) url)
 
 /-- `scheme`, `host`: of the looked-up URL after the default port was dropped;
 `url`: its text with a trailing slash.  First matching entry of the host wins. -/
